@@ -770,4 +770,126 @@ theorem sortDocs_unique (list : List Doc) (cols : List Column) (ok : ∀ d ∈ l
   have ha' : a ∈ list := hp.subset ha
   rw [ht a ha', sortDocs_ties list cols ok a (ok a ha')]
 
+/-! ## §10 the same facts for any comparator that is a total preorder on a subset -/
+
+section generic
+variable {α : Type}
+
+/-- `c` is reflexive and swap-antisymmetric everywhere, transitive on `P` -/
+structure PreorderOn (c : α → α → Ordering) (P : α → Prop) : Prop where
+  refl : ∀ a, c a a = .eq
+  swap : ∀ a b, c b a = (c a b).swap
+  trans : ∀ a b d, P a → P b → P d → c a b ≠ .gt → c b d ≠ .gt → c a d ≠ .gt
+  eq_trans : ∀ a b d, P a → P b → P d → c a b = .eq → c b d = .eq → c a d = .eq
+
+/-- the "not greater" test handed to the sorting routine -/
+def leOf (c : α → α → Ordering) (a b : α) : Bool := c a b != .gt
+
+/-- stable sort by a three-way comparison -/
+def stableSort (c : α → α → Ordering) (l : List α) : List α := l.mergeSort (leOf c)
+
+variable {c : α → α → Ordering} {P : α → Prop}
+
+theorem leOf_iff {a b : α} : leOf c a b = true ↔ c a b ≠ .gt := by simp [leOf]
+
+theorem leOf_total (h : PreorderOn c P) (a b : α) : (leOf c a b || leOf c b a) = true := by
+  simp only [leOf, h.swap a b]; cases c a b <;> rfl
+
+theorem stableSort_perm (l : List α) : (stableSort c l).Perm l := List.mergeSort_perm _ _
+
+theorem stableSort_pairwise (h : PreorderOn c P) (l : List α) (ok : ∀ a ∈ l, P a) :
+    (stableSort c l).Pairwise (fun a b => c a b ≠ .gt) := by
+  have := pairwise_mergeSort_on (P := P) (le := leOf c)
+    (fun a b d oa ob od h1 h2 => leOf_iff.mpr (h.trans a b d oa ob od (leOf_iff.mp h1) (leOf_iff.mp h2)))
+    (fun a b _ _ => leOf_total h a b) l ok
+  exact this.imp leOf_iff.mp
+
+theorem stableSort_sublist (h : PreorderOn c P) (l : List α) (ok : ∀ a ∈ l, P a) {ys : List α}
+    (hp : ys.Pairwise (fun a b => c a b ≠ .gt)) (hs : ys.Sublist l) : ys.Sublist (stableSort c l) :=
+  sublist_mergeSort_on (P := P) (le := leOf c)
+    (fun a b d oa ob od h1 h2 => leOf_iff.mpr (h.trans a b d oa ob od (leOf_iff.mp h1) (leOf_iff.mp h2)))
+    (fun a b _ _ => leOf_total h a b) l ok (hp.imp leOf_iff.mpr) hs
+
+theorem stableSort_ties (h : PreorderOn c P) (l : List α) (ok : ∀ a ∈ l, P a) (a : α) (oa : P a) :
+    (stableSort c l).filter (fun b => c a b == .eq) = l.filter (fun b => c a b == .eq) := by
+  let p : α → Bool := fun b => c a b == .eq
+  have hsub : (l.filter p).Sublist (stableSort c l) := by
+    apply stableSort_sublist h l ok _ List.filter_sublist
+    refine List.pairwise_of_forall_mem_list fun x hx y hy => ?_
+    have hx' := List.mem_filter.mp hx
+    have hy' := List.mem_filter.mp hy
+    have ex : c a x = .eq := by simpa [p] using hx'.2
+    have ey : c a y = .eq := by simpa [p] using hy'.2
+    have exa : c x a = .eq := by rw [h.swap a x, ex]; rfl
+    rw [h.eq_trans x a y (ok x hx'.1) oa (ok y hy'.1) exa ey]; decide
+  have h2 : (l.filter p).Sublist ((stableSort c l).filter p) := by
+    have := hsub.filter p
+    rwa [List.filter_filter, show (fun x => p x && p x) = p from by funext x; simp] at this
+  have hlen : ((stableSort c l).filter p).length = (l.filter p).length :=
+    ((stableSort_perm l).filter p).length_eq
+  exact (h2.eq_of_length hlen.symm).symm
+
+theorem sorted_ties_unique (h : PreorderOn c P) : ∀ (l1 l2 : List α), l1.Perm l2 →
+    l1.Pairwise (fun a b => c a b ≠ .gt) → l2.Pairwise (fun a b => c a b ≠ .gt) →
+    (∀ a ∈ l1, l1.filter (fun b => c a b == .eq) = l2.filter (fun b => c a b == .eq)) → l1 = l2 := by
+  intro l1
+  induction l1 with
+  | nil => intro l2 hp _ _ _; exact (List.Perm.nil_eq hp)
+  | cons x t1 ih =>
+    intro l2 hp s1 s2 hf
+    match l2 with
+    | [] => exact absurd hp.length_eq (by simp)
+    | y :: t2 =>
+      have hxy : c x y ≠ .gt := by
+        have hy : y ∈ x :: t1 := hp.symm.subset (by simp)
+        rcases List.mem_cons.mp hy with rfl | hy
+        · rw [h.refl]; decide
+        · exact (List.pairwise_cons.mp s1).1 y hy
+      have hyx : c y x ≠ .gt := by
+        have hx : x ∈ y :: t2 := hp.subset (by simp)
+        rcases List.mem_cons.mp hx with rfl | hx
+        · rw [h.refl]; decide
+        · exact (List.pairwise_cons.mp s2).1 x hx
+      have hxy_eq : c x y = .eq := by
+        rw [h.swap x y] at hyx
+        cases hc : c x y <;> simp_all
+      have hhead := hf x (by simp)
+      simp only [List.filter_cons, h.refl, beq_self_eq_true, ↓reduceIte, hxy_eq] at hhead
+      have exy : x = y := (List.cons.inj hhead).1
+      subst exy
+      have ht : t1 = t2 := by
+        refine ih t2 ((List.perm_cons x).mp hp) (List.pairwise_cons.mp s1).2 (List.pairwise_cons.mp s2).2 ?_
+        intro a ha
+        have := hf a (by simp [ha])
+        simp only [List.filter_cons] at this
+        split at this
+        · exact (List.cons.inj this).2
+        · exact this
+      rw [ht]
+
+theorem stableSort_unique (h : PreorderOn c P) (l : List α) (ok : ∀ a ∈ l, P a) (l' : List α)
+    (hp : l'.Perm l) (hs : l'.Pairwise (fun a b => c a b ≠ .gt))
+    (ht : ∀ a ∈ l, l'.filter (fun b => c a b == .eq) = l.filter (fun b => c a b == .eq)) :
+    l' = stableSort c l := by
+  refine sorted_ties_unique h l' (stableSort c l) (hp.trans (stableSort_perm l).symm) hs
+    (stableSort_pairwise h l ok) ?_
+  intro a ha
+  have ha' : a ∈ l := hp.subset ha
+  rw [ht a ha', stableSort_ties h l ok a (ok a ha')]
+
+/-- filtering commutes with a stable sort -/
+theorem filter_stableSort (h : PreorderOn c P) (l : List α) (ok : ∀ a ∈ l, P a) (p : α → Bool) :
+    (stableSort c l).filter p = stableSort c (l.filter p) := by
+  have ok' : ∀ a ∈ l.filter p, P a := fun a ha => ok a (List.mem_filter.mp ha).1
+  refine stableSort_unique h (l.filter p) ok' _ ((stableSort_perm l).filter p)
+    ((stableSort_pairwise h l ok).sublist List.filter_sublist) ?_
+  intro a ha
+  have ha' := List.mem_filter.mp ha
+  rw [List.filter_filter, show (fun x => (c a x == .eq) && p x) = (fun x => p x && (c a x == .eq)) from by
+        funext x; exact Bool.and_comm _ _,
+    ← List.filter_filter, stableSort_ties h l ok a (ok a ha'.1), List.filter_filter, List.filter_filter]
+  congr 1; funext x; exact Bool.and_comm _ _
+end generic
+
+
 end Lungo
